@@ -377,7 +377,7 @@ def evaluate_hiers(ctx, hiers, with_model=True):
 def gen_hiers(ctx):
     sigs3 = c07.c05.all_sigs(3)
     out = corpus_hiers()
-    n = ctx.n(1100, 20000)
+    n = ctx.n(1100, 12000)
     while len(out) < n:
         h = gen_hier(ctx.rng, sigs3)
         out.append(h)
